@@ -125,6 +125,16 @@ instance decProper (m : Meta) : Decidable (proper m) := by unfold proper; exact 
 /-- Executable spec of route lookup: all catalog entries whose range contains the key. -/
 def specLookup (pd : PD) (key : Bytes) : List Meta := pd.filter (fun m => decide (contains m key))
 
+/-! ### restart: `cmd/nokv/pd.go:restorePDRegions` re-upserts the persisted regions in id order -/
+
+def insertById (m : Meta) : List Meta → List Meta
+  | [] => [m]
+  | x :: xs => if m.id ≤ x.id then m :: x :: xs else x :: insertById m xs
+
+def sortById (l : List Meta) : List Meta := l.foldr insertById []
+
+def restart (c : PDCfg) (pd : PD) : PD := (sortById pd).foldl (fun acc m => (upsert c acc m).1) []
+
 /-! ### operations as a sum type, for "every history" statements -/
 
 inductive Op where
